@@ -274,7 +274,28 @@ func queryVector(c godi.Collection) M {
 }
 
 // matrix: which (type,key) identities resolve in a fresh scope, and the size of each group.
+// matrixRuns: how often each registration's constructor ran while the last matrix was taken (one scope, every
+// identity resolved once, every group once)
+var matrixRuns = M{}
+
 func matrix(p godi.Provider) (res []string, groups M, fail string) {
+	R.mu.Lock()
+	before := map[string]int{}
+	for k, v := range R.inv {
+		before[k] = v
+	}
+	R.mu.Unlock()
+	defer func() {
+		R.mu.Lock()
+		runs := M{}
+		for k, v := range R.inv {
+			if d := v - before[k]; d > 0 {
+				runs[k] = d
+			}
+		}
+		R.mu.Unlock()
+		matrixRuns = runs
+	}()
 	res = []string{}
 	groups = M{}
 	for _, t := range qTypes {
@@ -445,7 +466,7 @@ func registryScenario(sc *RScenario, raw []byte, run int) {
 					R.mu.Unlock()
 					ev["ran"] = ran
 					res, groups, fail := matrix(p)
-					ev["resolvable"], ev["groups"] = res, groups
+					ev["resolvable"], ev["groups"], ev["mruns"] = res, groups, matrixRuns
 					if fail != "" {
 						ev["err"] = []string{"matrix:" + fail}
 					}
@@ -468,7 +489,7 @@ func registryScenario(sc *RScenario, raw []byte, run int) {
 						continue
 					}
 					res, groups, _ := matrix(p)
-					emit(M{"ev": "probe", "p": pi + 1, "resolvable": res, "groups": groups})
+					emit(M{"ev": "probe", "p": pi + 1, "resolvable": res, "groups": groups, "mruns": matrixRuns})
 				}
 			}
 		}()
